@@ -19,7 +19,7 @@ RULE = ("random registration tables (<=4 routers, <=6 names, <=3 queues, overrid
 ASSUMPTIONS = ["Redis and RabbitMQ are wire-level fakes (RabbitMQ: requeue returns a message to its original position)", "virtual time",
                "own messages behind foreign ones must be executed within 20 s + 1 s per message of virtual time"]
 EVAL_COUNTER = "jobs_judged"
-REQUIRED = ["jobs_judged", "own_executed", "foreign_left_alone", "overrides_across_queues", "two_worker_runs", "tables_with_bystander_workers", "crowded_queues", "pipeline_runs", "same_instant_runs"]
+REQUIRED = ["jobs_judged", "own_executed", "foreign_left_alone", "overrides_across_queues", "two_worker_runs", "tables_with_bystander_workers", "crowded_queues", "pipeline_runs", "same_instant_runs", "busy_foreign_runs"]
 CASE_TIMEOUT = 150
 
 NAMES = ["alpha", "alpha2", "al", "beta", "gamma", "delta"]  # names that are prefixes of each other: topic filters must match whole names
@@ -51,6 +51,9 @@ def gen_cases(tier, seed):
         for i in range({"quick": 3, "thorough": 12}[tier]):
             cases.append({"type": "two", "chain": True, "kind": kind, "n": rnd.choice([1, 2, 3]), "tl": rnd.choice([1, 3, 1000]), "seed": rnd.randrange(10**6),
                           "latency": None if kind == "mem" else rnd.choice([None, 0.002]), "lag": rnd.choice([0.0505, 0.2, 1.3])})
+        # the other worker's jobs run for a long time: its in-flight messages are no business of this worker's window
+        for tl in ((1, 2) if tier == "quick" else (1, 2, 3)):
+            cases.append({"type": "two", "busy_foreign": True, "kind": kind, "n": 5, "tl": tl, "seed": rnd.randrange(10**6), "latency": None if kind == "mem" else 0.002})
         for i in range({"quick": 2, "thorough": 8}[tier]):
             cases.append({"type": "two", "same_due": True, "kind": kind, "n": rnd.choice([2, 4, 7]), "tl": rnd.choice([1, 3, 1000]), "seed": rnd.randrange(10**6),
                           "latency": None if kind == "mem" else rnd.choice([None, 0.002])})
@@ -210,6 +213,8 @@ async def two_scenario(loop, case, out, stats, fps, samples):
             stats["same_instant_runs"] += 1
         for i in range(case["n"]):
             name = (rnd.choice(["alpha", "beta"]) if not case.get("same_due") else ["alpha", "beta"][i % 2]) if not chain else "beta"
+            if case.get("busy_foreign"):
+                name = "beta" if i < 3 else "alpha"  # three long foreign jobs first, then this worker's short ones
             id_ = f"j{i:03d}"
             jobs[id_] = name
             if chain:
@@ -218,10 +223,11 @@ async def two_scenario(loop, case, out, stats, fps, samples):
             if case.get("same_due"):
                 # every job is deferred to the very same instant (one datetime object's worth): batch imports, cron lines
                 kwj["deferred_until"] = same_due_at
-            await Job(name, id_=id_, queue="shared", args={"script": {"do": "ok", "d": 0.02}}, store_result=False, use_args_bucketer=False, _connection=w.conn, **kwj).enqueue()
+            dur = 6.0 if (case.get("busy_foreign") and name == "beta") else 0.02
+            await Job(name, id_=id_, queue="shared", args={"script": {"do": "ok", "d": dur}}, store_result=False, use_args_bucketer=False, _connection=w.conn, **kwj).enqueue()
         sig = __import__("signal").SIGUSR1
         wk1 = Worker(routers=[r1], tasks_limit=case["tl"], graceful_shutdown_time=5.0, handle_signals=[sig], _connection=w.conn)
-        wk2 = Worker(routers=[r2], tasks_limit=case["tl"], graceful_shutdown_time=5.0, handle_signals=[], _connection=conn2)
+        wk2 = Worker(routers=[r2], tasks_limit=1000 if case.get("busy_foreign") else case["tl"], graceful_shutdown_time=8.0 if case.get("busy_foreign") else 5.0, handle_signals=[], _connection=conn2)
         t1 = loop.create_task(wk1.run())
         if chain:
             await asyncio.sleep(case["lag"])  # worker 1 has looked at the queue (in vain) many times by now
@@ -242,6 +248,14 @@ async def two_scenario(loop, case, out, stats, fps, samples):
         for e in w.events("actor_start"):
             starts[e["id"]].append(e)
         ctx = "two-workers" if kind == "rabbit" else f"two-workers/tl={'inf' if case['tl'] >= 1000 else case['tl']}"
+        if case.get("busy_foreign"):
+            stats["busy_foreign_runs"] += 1
+            t_run = min((e["t"] for e in w.events("actor_start")), default=None)
+            for id_, name in jobs.items():
+                ss = starts.get(id_, [])
+                if name == "alpha" and ss and t_run is not None and ss[0]["t"] > t_run + 3.0:
+                    out.append(V("blocked_by_foreign", kind, "two-workers" if kind == "rabbit" else "two-workers/foreign-in-flight", f"{id_} (alpha, tasks_limit={case['tl']}) started {ss[0]['t'] - t_run:.2f}s after the other worker's long jobs began: it waited for THEIR executions (6 s each) although its own worker was idle"))
+                    break
         if chain and kind != "rabbit":  # (rabbit: the reject-requeue parking of two workers on one queue is a known finding, whatever the jobs)
             ctx = "two-workers/follow-up-job"
         for id_, name in jobs.items():
